@@ -229,12 +229,21 @@ CHECKS = {'C01': {'level': 'exploration',
                  'commit); the harness record codec has an optional field that its decoder leaves alone when absent (like encoding/json with omitted '
                  'fields); string columns may use a "set or append" merge that returns a sub-slice of its delta | since round 7: DropColumn of a '
                  'value column and its later re-creation under the same name (nothing of the former values may show), dropped index names that come '
-                 'back on another column / with another rule',
+                 'back on another column / with another rule | TestC07Boundary: a wide padding column followed by 4..40 small columns of mixed '
+                 'kinds; the padding is sized after measuring the uncompressed state so that a multiple of 1 MiB (the block size of the s2 stream, '
+                 'where the decompressor ends a Read) falls at a drawn byte inside the region of the small columns: every field of the format (name, '
+                 'int32, chunk header, payload) gets split over two reads in some case; oracle = the generated values themselves (Restore returns '
+                 'nil, Count, every cell); non-trivial = the mark fell inside that region',
          'assumptions': ['the restoring collection has the same columns (names, kinds, merge functions) as the original',
                          'vacuum is parked (24h interval), so the expire column is an ordinary int64 column here'],
          'tests': [{'run': '^TestC07$',
                     'checks': {'quick': 250, 'thorough': 2500},
                     'shards': {'quick': 1, 'thorough': 16},
+                    'timeout': {'quick': 900, 'thorough': 3400},
+                    'env': {'GOMAXPROCS': 1}},
+                   {'run': '^TestC07Boundary$',
+                    'checks': {'quick': 120, 'thorough': 3000},
+                    'shards': {'quick': 1, 'thorough': 8},
                     'timeout': {'quick': 900, 'thorough': 3400},
                     'env': {'GOMAXPROCS': 1}}]},
  'C08': {'level': 'exploration',
@@ -461,7 +470,12 @@ CHECKS = {'C01': {'level': 'exploration',
                  'part of a commit does not) | since round 5 the parallel part has hot rows into which every writer merges a positive amount: across '
                  'growing prefixes of one snapshot (state section alone, up to 40 cuts inside the log tail, complete file) their restored values may '
                  'never decrease | since round 6: on keyed schemas the transactions that run during the snapshot use key operations over the small '
-                 'key alphabet (a key may leave one block and come back in another while the blocks are cut at different times)',
+                 'key alphabet (a key may leave one block and come back in another while the blocks are cut at different times) | TestC13Big: 32 '
+                 '770..36 000 rows with incompressible strings of 66..140 bytes (state of 2.4..5 MB) and, while the snapshot is in progress, one '
+                 'transaction that re-writes every string (three commits of more than 1 MiB each in the log tail); the file is cut at every s2 frame '
+                 'boundary +-2, at the state/log junction +-2 and at 11 other places; a prefix that restores without error must hold, per block, all '
+                 'old or all new strings, the new ones in a prefix of the commit order; non-trivial = a cut inside the log tail restored without '
+                 'error',
          'assumptions': ['a crash leaves a prefix of the byte stream (no torn or reordered sectors)',
                          'which files are generated is random (rapid); offsets per file are enumerated as stated (coverage.exhaustive is true only '
                          'in the thorough tier)'],
@@ -478,7 +492,12 @@ CHECKS = {'C01': {'level': 'exploration',
                    {'run': '^TestC13Parallel$',
                     'checks': {'quick': 25, 'thorough': 400},
                     'shards': {'quick': 1, 'thorough': 2},
-                    'timeout': {'quick': 900, 'thorough': 3400}}]},
+                    'timeout': {'quick': 900, 'thorough': 3400}},
+                   {'run': '^TestC13Big$',
+                    'checks': {'quick': 4, 'thorough': 120},
+                    'shards': {'quick': 1, 'thorough': 8},
+                    'timeout': {'quick': 900, 'thorough': 3400},
+                    'env': {'GOMAXPROCS': 1}}]},
  'C14': {'level': 'fault_enumeration',
          'rule': 'per generated collection (empty, <=120 rows, one block + 6 rows, 33000 rows thinned by a patterned delete; keyed or not; with or '
                  'without a LOG TAIL produced by transactions that the verif hooks run synchronously at snapshot:recorder-open / pre-chunk / '
